@@ -73,16 +73,18 @@ def upgradeSuffices (rel : Rel) (batch : Int) (d : Option Dep) (o : StepOut) : B
     | _, _ => true
   else true
 
+/-- what one step of a walk allows: the planned size of the batch an `UpgradeBatch` works on -/
+def stepAllow (rel : Rel) (r : Int) (s : Step) : Int :=
+  if s.call = .upgradeBatch then
+    match entryOf rel s.batch with
+    | some e => max 0 (calcBatchReplicas r e)
+    | none => 0
+  else 0
+
 /-- what the batches upgraded during a walk allow at most -/
 def allowedMax (rel : Rel) (r : Int) : List Step → Int
   | [] => 0
-  | s :: ss =>
-    let rest := allowedMax rel r ss
-    if s.call = .upgradeBatch then
-      match entryOf rel s.batch with
-      | some e => max (calcBatchReplicas r e) rest
-      | none => rest
-    else rest
+  | s :: ss => max (stepAllow rel r s) (allowedMax rel r ss)
 
 /-- the user does not scale during the walk -/
 def noScale (steps : List Step) : Bool := steps.all fun s => s.edit.replicas.isNone
@@ -95,9 +97,13 @@ def ruValid (u : RU) : Bool :=
   u.maxUnavailable.isSome && u.maxSurge.isSome &&
   !(scaled100 u.maxSurge == 0 && scaled100 u.maxUnavailable == 0)
 
+/-- no leftover of a rollout on the Deployment -/
+def userClean (d : Dep) : Bool :=
+  d.stratAnno == .absent && d.control == .none && !d.ctrlLabel && !d.extraStatus && d.stableRev == ""
+
 /-- the Deployment as its user configured it: strategy RollingUpdate `u`, nothing parked -/
 def userState (d : Dep) (u : RU) : Bool :=
-  d.stratType == "RollingUpdate" && d.stratRU == some u && d.stratAnno == .absent
+  d.stratType == "RollingUpdate" && d.stratRU == some u && userClean d
 
 /-- user edits considered by the round trip: a new template, a new size, and/or re-submitting
     `strategy: {type: RollingUpdate, rollingUpdate: u'}` (what `kubectl apply` of the manifest does);
@@ -111,15 +117,18 @@ def editOK (e : Edit) : Bool :=
 
 def stepsOK (steps : List Step) : Bool := steps.all fun s => s.call != .admit || editOK s.edit
 
+/-- the `rollingUpdate` block after a user edit -/
+def editRU (u : RU) (e : Edit) : RU :=
+  match e.strat with
+  | some (_, some u') => u'
+  | _ => u
+
+def stepRU (u : RU) (s : Step) : RU := if s.call = .admit then editRU u s.edit else u
+
 /-- the `rollingUpdate` the user submitted last -/
 def trackRU (u : RU) : List Step → RU
   | [] => u
-  | s :: ss =>
-    if s.call = .admit then
-      match s.edit.strat with
-      | some (_, some u') => trackRU u' ss
-      | _ => trackRU u ss
-    else trackRU u ss
+  | s :: ss => trackRU (stepRU u s) ss
 
 /-- what `Finalize` takes as "this Deployment is ours" -/
 def claimed (d : Dep) : Bool := d.control != .none && d.paused
@@ -145,7 +154,7 @@ def endsWithFinalize (s : Step) (o : StepOut) : Bool :=
     unpaused, with no rollout annotation or label.
     `d0` initial Deployment, `pre` the steps before the last, `dl` the Deployment before the last step. -/
 def roundTripFull (d0 : Dep) (pre : List Step) (last : Step) (dl : Option Dep) (o : StepOut) : Bool :=
-  if stepsOK pre ∧ endsWithFinalize last o ∧ d0.stratAnno = .absent then
+  if stepsOK pre ∧ endsWithFinalize last o ∧ userClean d0 then
     match d0.stratType, d0.stratRU, dl, o.dep with
     | "RollingUpdate", some u, some _, some d' => if ruValid u then restored d' (trackRU u pre) else true
     | "Recreate", none, some _, some d' =>
@@ -159,11 +168,12 @@ def roundTripFull (d0 : Dep) (pre : List Step) (last : Step) (dl : Option Dep) (
 /-- known-finding guard `userRecreate`: the user's strategy type is Recreate -/
 def guardUserRecreate (d0 : Dep) : Bool := d0.stratType == "Recreate"
 
-/-- known-finding guard `unclaimedFinalize`: the last `Finalize` finds no control-info on a paused or parked
-    Deployment (an earlier BatchRelease released only its control-info, or none ever claimed it) -/
+/-- known-finding guard `unclaimedFinalize`: the last `Finalize` finds no control-info on a Deployment that is
+    still paused or whose strategy is still parked in the annotation (an earlier BatchRelease released only its
+    control-info, or none ever claimed the Deployment the webhook paused) -/
 def guardUnclaimed (dl : Option Dep) : Bool :=
   match dl with
-  | some d => !claimed d
+  | some d => !claimed d && (parked d || d.paused)
   | none => false
 
 /-- the part of `roundTripFull` that is a theorem of the unchanged code -/
